@@ -126,6 +126,7 @@ class Actor(object):
         self.validators = [self.validator] + [
             self.cls({"$ref": r}, resolver=resolver, format_checker=self.fc) for r in cfg.get("extra_validators", ())]
         self.scope0 = resolver.resolution_scope
+        self.install_depth_counter()
         self.root0 = fast(root)
         self.store0 = self.store_snapshot()
         self.store_keys0 = sorted(self.store0)
@@ -143,9 +144,33 @@ class Actor(object):
                 out[k] = "<key listed but not readable>"   # observation must not crash the harness
         return out
 
+    def install_depth_counter(self):
+        """Count push_scope/pop_scope calls through the resolver's *public* methods (instance-level
+        pass-through wrappers), so that reach probes do not depend on private attribute names."""
+        self._depth = None
+        r = self.resolver
+        try:
+            push, pop = r.push_scope, r.pop_scope
+            box = [1]
+
+            def push_scope(*a, **k):
+                box[0] += 1
+                return push(*a, **k)
+
+            def pop_scope(*a, **k):
+                box[0] -= 1
+                return pop(*a, **k)
+            r.push_scope = push_scope
+            r.pop_scope = pop_scope
+            self._depth = box
+        except Exception:
+            self._depth = None
+
     def depth(self):
-        """Reach probe only (private read)."""
-        st = getattr(self.resolver, "_scopes_stack", None)
+        """Reach probe only: number of scopes currently pushed (1 = just the base)."""
+        if getattr(self, "_depth", None) is not None:
+            return self._depth[0]
+        st = getattr(self.resolver, "_scopes_stack", None)      # fallback: private read
         return len(st) if st is not None else -1
 
     def probe(self, name, n=1):
